@@ -171,6 +171,10 @@ def check(pid, tier):
             stats[k] = stats.get(k, 0) + val
         samples.extend(ev_samples)
         notes.extend(["vacuous control: " + x for x in ev_notes])
+    # ---- keys that are another property's business (documented per check)
+    for pat in spec.get("ignore_keys", []):
+        for k in [k for k in violations if fnmatch.fnmatchcase(k, pat)]:
+            del violations[k]
     # ---- classify
     known = load_known()
     kn = [k for k in known.get("known", []) if k["property"] == pid]
